@@ -24,6 +24,7 @@ import (
 // ChainParams are the parameters all nodes of a run share.
 type ChainParams struct {
 	ChainID       []byte
+	GenesisHeight uint32 // height of the genesis block (a chain may start above 0, e.g. after a migration)
 	BlockTime     uint32
 	BatchSize     int
 	MaxTxSize     uint32
